@@ -8,6 +8,9 @@
 #include <set>
 #include <string>
 #include <vector>
+#ifdef HM_FANCY
+#include "fancy_ptr.hpp"
+#endif
 
 namespace instr {
 
@@ -76,21 +79,38 @@ struct LA {
 	using propagate_on_container_swap            = std::integral_constant<bool, Tr::pocs>;
 	using is_always_equal                        = std::integral_constant<bool, Tr::always_equal>;
 	template<class U> struct rebind { using other = LA<U, Tr>; };
+#ifdef HM_FANCY   // C11: the allocator hands out a user-defined pointer type with provenance
+	using pointer = fancy::ptr<T>;
+	using const_pointer = fancy::ptr<T const>;
+	using void_pointer = fancy::ptr<void>;
+	using difference_type = std::ptrdiff_t;
+	using size_type = std::size_t;
+#else
+	using pointer = T*;
+#endif
 	int id = 0;
 	LA() = default;
 	explicit LA(int i) : id(i) {}
 	template<class U> LA(LA<U, Tr> const& o) : id(o.id) {}  // NOLINT
-	T* allocate(std::size_t n) {
+	static T* raw_of(T* p) { return p; }
+#ifdef HM_FANCY
+	static T* raw_of(fancy::ptr<T> const& p) { return p.verif_raw(); }
+	static pointer wrap(T* p, std::size_t n) { return fancy::make(p, static_cast<std::ptrdiff_t>(n)); }
+#else
+	static pointer wrap(T* p, std::size_t /*n*/) { return p; }
+#endif
+	pointer allocate(std::size_t n) {
 		W.opportunity(0);
 		++W.nalloc;
 		std::size_t bytes = n*sizeof(T);
 		void* p = ::operator new(bytes ? bytes : 1);
 		std::memset(p, PREFILL_BYTE, bytes);
 		W.blocks[p] = Block{n, id, bytes};
-		return static_cast<T*>(p);
+		return wrap(static_cast<T*>(p), n);
 	}
-	T* allocate(std::size_t n, void const* /*hint*/) { return allocate(n); }
-	void deallocate(T* p, std::size_t n) {
+	template<class Hint> pointer allocate(std::size_t n, Hint const& /*hint*/) { return allocate(n); }
+	void deallocate(pointer fp, std::size_t n) {
+		T* p = raw_of(fp);
 		++W.ndealloc;
 		auto it = W.blocks.find(p);
 		if(it == W.blocks.end()) { W.err("deallocate-unknown-or-freed-block"); return; }
